@@ -1,0 +1,124 @@
+//go:build verif
+
+package redisemu
+
+// C03: the doubly linked list behind the list commands. Ghost view: seq is the
+// sequence of nodes from head to tail, idx the position of a node in its list,
+// owner the list a node belongs to.
+
+//@ ghostfield storeList.seq seqof:*listItem
+//@ ghostfield listItem.idx int
+//@ ghostfield listItem.owner *storeList
+
+//@ pred listWF(l *storeList) = l.count >= 0 && (l.count == 0 ==> l.head == nil && l.tail == nil) && (l.count > 0 ==> l.head == l.seq[0] && l.tail == l.seq[l.count-1]) && all(i, 0, l.count, l.seq[i] != nil && asref(l.seq[i]) < alloc() && l.seq[i].idx == i && l.seq[i].owner == l) && all(i, 0, l.count, (i == 0 ==> l.seq[i].prev == nil) && (i > 0 ==> l.seq[i].prev == l.seq[i-1]) && (i == l.count-1 ==> l.seq[i].next == nil) && (i < l.count-1 ==> l.seq[i].next == l.seq[i+1]))
+
+//@ define listhelper
+//@ prop C08 C16 C03
+//@ guards on
+//@ safetyprop C13
+//@ requires dscOK(dsc)
+//@ requires [C08,C16] locked: held
+//@ modifies heap ghost.mutated ghost.bumped ghost.removedKey ghost.lookupAbsent ghost.now
+//@ ensures stillheld: held
+//@ ensures [C19] dirty.mono: old(dsc.ds.data.dirty) ==> dsc.ds.data.dirty
+//@ ensures [C19] dirty.mut: (mutated && !old(mutated)) ==> dsc.ds.data.dirty
+//@ ensures [C10] ver.mono: (old(bumped) ==> bumped) && (old(removedKey) ==> removedKey) && (old(lookupAbsent) ==> lookupAbsent)
+//@ ensures [C19,C10] mut.mono: old(mutated) ==> mutated
+//@ end
+
+//@ func dataStoreCommand.lpushUnlocked
+//@ mode int
+//@ include listhelper
+//@ ensures [C10] ver.mut: (mutated && !old(mutated)) ==> bumped || removedKey || lookupAbsent
+//@ requires [C03] wf: list != nil && listWF(list)
+//@ requires list.count < (1<<62)
+//@ ghostafter "list.count++" : bulk listItem.idx r = ite(r.owner == list && r != list.head, r.idx + 1, r.idx)
+//@ ghostafter "list.count++" : list.head.idx = 0
+//@ ghostafter "list.count++" : list.head.owner = list
+//@ ghostafter "list.count++" : list.seq = seqins(list.seq, 0, list.head)
+//@ ensures [C03] wf: listWF(list)
+//@ ensures [C03] count: list.count == old(list.count) + 1
+//@ ensures [C03] pushed: list.seq[0] == list.head && list.head.element == element
+//@ ensures [C03] rest: all(i, 0, old(list.count), list.seq[i+1] == old(list.seq[i]))
+
+//@ func dataStoreCommand.rpushUnlocked
+//@ mode int
+//@ include listhelper
+//@ ensures [C10] ver.mut: (mutated && !old(mutated)) ==> bumped || removedKey || lookupAbsent
+//@ requires [C03] wf: list != nil && listWF(list)
+//@ requires list.count < (1<<62)
+//@ ghostafter "list.count++" : list.tail.idx = list.count - 1
+//@ ghostafter "list.count++" : list.tail.owner = list
+//@ ghostafter "list.count++" : list.seq = seqins(list.seq, list.count - 1, list.tail)
+//@ ensures [C03] wf: listWF(list)
+//@ ensures [C03] count: list.count == old(list.count) + 1
+//@ ensures [C03] pushed: list.seq[list.count-1] == list.tail && list.tail.element == element
+//@ ensures [C03] rest: all(i, 0, old(list.count), list.seq[i] == old(list.seq[i]))
+
+//@ func dataStoreCommand.lpopUnlocked
+//@ mode int
+//@ include listhelper
+//@ ensures [C10] ver.mut: (mutated && !old(mutated)) ==> bumped || removedKey || lookupAbsent
+//@ requires [C03] wf: list != nil && listWF(list) && list.count > 0 && item == list.head
+//@ ghostafter "list.count--" : bulk listItem.idx r = ite(r.owner == list && r != item, r.idx - 1, r.idx)
+//@ ghostafter "list.count--" : item.owner = nil
+//@ ghostafter "list.count--" : list.seq = seqdel(list.seq, 0)
+//@ ensures [C03] wf: listWF(list)
+//@ ensures [C03] count: list.count == old(list.count) - 1
+//@ ensures [C03] rest: all(i, 0, list.count, list.seq[i] == old(list.seq[i+1]))
+//@ ensures [C03] detached: item.next == nil && item.prev == nil
+
+//@ func dataStoreCommand.rpopUnlocked
+//@ mode int
+//@ include listhelper
+//@ ensures [C10] ver.mut: (mutated && !old(mutated)) ==> bumped || removedKey || lookupAbsent
+//@ requires [C03] wf: list != nil && listWF(list) && list.count > 0 && item == list.tail
+//@ ghostafter "list.count--" : item.owner = nil
+//@ ensures [C03] wf: listWF(list)
+//@ ensures [C03] count: list.count == old(list.count) - 1
+//@ ensures [C03] rest: all(i, 0, list.count, list.seq[i] == old(list.seq[i]))
+//@ ensures [C03] detached: item.next == nil && item.prev == nil
+
+//@ func dataStoreCommand.removeUnlocked
+//@ mode int
+//@ include listhelper
+//@ ensures [C10] ver.mut: (mutated && !old(mutated)) ==> bumped || removedKey || lookupAbsent
+//@ requires [C03] wf: list != nil && listWF(list) && item != nil && item.owner == list && 0 <= item.idx && item.idx < list.count && list.seq[item.idx] == item
+//@ ghostafter "list.count--" : bulk listItem.idx r = ite(r.owner == list && r != item && r.idx > old(item.idx), r.idx - 1, r.idx)
+//@ ghostafter "list.count--" : item.owner = nil
+//@ ghostafter "list.count--" : list.seq = seqdel(list.seq, old(item.idx))
+//@ ensures [C03] wf: listWF(list)
+//@ ensures [C03] count: list.count == old(list.count) - 1
+//@ ensures [C03] before: all(i, 0, old(item.idx), list.seq[i] == old(list.seq[i]))
+//@ ensures [C03] after: all(i, old(item.idx), list.count, list.seq[i] == old(list.seq[i+1]))
+//@ ensures [C03] detached: item.next == nil && item.prev == nil
+
+//@ func dataStoreCommand.linsertBeforeUnlocked
+//@ mode int
+//@ include listhelper
+//@ requires [C03] wf: list != nil && listWF(list) && pivotItem != nil && pivotItem.owner == list && 0 <= pivotItem.idx && pivotItem.idx < list.count && list.seq[pivotItem.idx] == pivotItem
+//@ requires list.count < (1<<62)
+//@ ghostafter "list.count++" : bulk listItem.idx r = ite(r.owner == list && r != pivotItem.prev && r.idx >= old(pivotItem.idx), r.idx + 1, r.idx)
+//@ ghostafter "list.count++" : pivotItem.prev.idx = old(pivotItem.idx)
+//@ ghostafter "list.count++" : pivotItem.prev.owner = list
+//@ ghostafter "list.count++" : list.seq = seqins(list.seq, old(pivotItem.idx), pivotItem.prev)
+//@ ensures [C03] wf: listWF(list)
+//@ ensures [C03] count: list.count == old(list.count) + 1
+//@ ensures [C03] inserted: list.seq[old(pivotItem.idx)].element == element && list.seq[old(pivotItem.idx)+1] == pivotItem
+//@ ensures [C03] before: all(i, 0, old(pivotItem.idx), list.seq[i] == old(list.seq[i]))
+//@ ensures [C03] after: all(i, old(pivotItem.idx), old(list.count), list.seq[i+1] == old(list.seq[i]))
+
+//@ func dataStoreCommand.linsertAfterUnlocked
+//@ mode int
+//@ include listhelper
+//@ requires [C03] wf: list != nil && listWF(list) && pivotItem != nil && pivotItem.owner == list && 0 <= pivotItem.idx && pivotItem.idx < list.count && list.seq[pivotItem.idx] == pivotItem
+//@ requires list.count < (1<<62)
+//@ ghostafter "list.count++" : bulk listItem.idx r = ite(r.owner == list && r != pivotItem.next && r.idx > old(pivotItem.idx), r.idx + 1, r.idx)
+//@ ghostafter "list.count++" : pivotItem.next.idx = old(pivotItem.idx) + 1
+//@ ghostafter "list.count++" : pivotItem.next.owner = list
+//@ ghostafter "list.count++" : list.seq = seqins(list.seq, old(pivotItem.idx) + 1, pivotItem.next)
+//@ ensures [C03] wf: listWF(list)
+//@ ensures [C03] count: list.count == old(list.count) + 1
+//@ ensures [C03] inserted: list.seq[old(pivotItem.idx)+1].element == element && list.seq[old(pivotItem.idx)] == pivotItem
+//@ ensures [C03] before: all(i, 0, old(pivotItem.idx)+1, list.seq[i] == old(list.seq[i]))
+//@ ensures [C03] after: all(i, old(pivotItem.idx)+1, old(list.count), list.seq[i+1] == old(list.seq[i]))
